@@ -10,14 +10,14 @@ fn p(profile: &'static str, q: u64, t: u64) -> Part {
 pub fn spec(prop: &str, quick: bool) -> Option<CheckSpec> {
     let lifecycle_rule = "plans drawn by a seeded PRNG (hash x per-level (w,h) x levels 1..8 x start counter x fault mix x API mix x aux); a run is non-trivial if at least one fault kind fired (callback reject, crash before/after durable, crash after return, restart) and an oracle was evaluated afterwards; distinct = distinct hash of (key shapes, op-kind sequence incl. API/callback kinds, set of fault kinds that fired)";
     Some(match prop {
-        "C01" => CheckSpec { property: "C01", level: "exploration", parts: vec![p("lifecycle", 1500, 6000), p("lifecycle-full", 300, 1500), p("wire", 100, 600), p("radix-e2e", 6, 30)], exhaustive_note: None, rule: lifecycle_rule },
-        "C03" => CheckSpec { property: "C03", level: "exploration", parts: vec![p("lifecycle", 1500, 6000), p("lifecycle-full", 500, 2000)], exhaustive_note: None, rule: lifecycle_rule },
-        "C05" => CheckSpec { property: "C05", level: "exploration", parts: vec![p("lifecycle-full", 600, 2500), p("lifecycle", 600, 3000), p("radix-arith", 20, 200)], exhaustive_note: None, rule: lifecycle_rule },
-        "C07" => CheckSpec { property: "C07", level: "exploration", parts: vec![p("lifecycle", 1500, 6000), p("lifecycle-full", 300, 1500), p("handover", 40, 400), p("radix-e2e", 6, 30)], exhaustive_note: None, rule: lifecycle_rule },
+        "C01" => CheckSpec { property: "C01", level: "exploration", parts: vec![p("lifecycle", 1500, 6000), p("lifecycle-full", 300, 1500), p("wire", 100, 600), p("radix-e2e", 6, 30), p("corners", gen::CORNERS, gen::CORNERS)], exhaustive_note: None, rule: lifecycle_rule },
+        "C03" => CheckSpec { property: "C03", level: "exploration", parts: vec![p("lifecycle", 1500, 6000), p("lifecycle-full", 500, 2000), p("corners", gen::CORNERS, gen::CORNERS)], exhaustive_note: None, rule: lifecycle_rule },
+        "C05" => CheckSpec { property: "C05", level: "exploration", parts: vec![p("lifecycle-full", 600, 2500), p("lifecycle", 600, 3000), p("radix-arith", 20, 200), p("corners", gen::CORNERS, gen::CORNERS)], exhaustive_note: None, rule: lifecycle_rule },
+        "C07" => CheckSpec { property: "C07", level: "exploration", parts: vec![p("lifecycle", 1500, 6000), p("lifecycle-full", 300, 1500), p("handover", 40, 400), p("radix-e2e", 6, 30), p("corners", gen::CORNERS, gen::CORNERS)], exhaustive_note: None, rule: lifecycle_rule },
         "C04" => CheckSpec {
             property: "C04",
             level: "fault_enumeration",
-            parts: vec![p("callback", gen::callback_space_size(), gen::callback_space_size()), p("lifecycle", 300, 6000)],
+            parts: vec![p("callback", gen::callback_space_size(), gen::callback_space_size()), p("lifecycle", 300, 6000), p("corners", gen::CORNERS, gen::CORNERS)],
             exhaustive_note: Some("every counter of the complete lifetime of shapes {[2],[5],[2,2],[2,2,2]} x w in {1,2,4,8} x 2 hashes x callback {accept, reject, crash-before, crash-after, reject-once} x aux {none, fresh, valid, corrupt} x {byte API, object API}, followed by every truncated length / over-long / bad parameter byte / out-of-range counter / wiped / all-0xff key"),
             rule: "the crossing (shape x w x hash x callback behaviour x aux kind x API) is enumerated by run index; each run visits every counter of the key's lifetime and every failing precondition; non-trivial = a fault fired and the callback automaton was evaluated afterwards; distinct = distinct (configuration, op kinds, fault set) hash; the lifecycle part adds seeded swarm shapes",
         },
@@ -52,7 +52,7 @@ pub fn spec(prop: &str, quick: bool) -> Option<CheckSpec> {
             exhaustive_note: None,
             rule: "(a) height tuples of length 1..8 over {5,10,15,20,25} (and the 4-leaf height) through the hook accessors: short histories of increment + persist/reload from boundary and random counters compared with a u128 model at every step (thorough: all 488 280 tuples); (b) leaf-index fields of real signatures of tall shapes at boundary counters; (c) library and hash-sigs binary alternating on one key file with a common release ledger; non-trivial = a boundary/hand-over fault fired; distinct = (shape, op kinds) hash",
         },
-        "C14" => CheckSpec { property: "C14", level: "exploration", parts: vec![p("lifecycle", 150, 800), p("lifecycle-full", 60, 300), p("keygen", 200, 1000), p("aux", 60, 300), p("limits", 102, 102), p("storage", 6, 6)], exhaustive_note: None, rule: "the engine rebuilt under each HBS_LMS_* environment; in-limit lists are held to the build-independent reference model (lifecycle, keygen, aux profiles), out-of-limit lists (one level too many, one height step above the largest configured, one w step below the smallest configured, at each level) must be refused; non-trivial = a fault or limit probe fired; distinct = (build, shape, op kinds) hash" },
+        "C14" => CheckSpec { property: "C14", level: "exploration", parts: vec![p("lifecycle", 150, 800), p("lifecycle-full", 60, 300), p("keygen", 200, 1000), p("aux", 60, 300), p("limits", 102, 102), p("storage", 6, 6), p("corners", gen::CORNERS, gen::CORNERS)], exhaustive_note: None, rule: "the engine rebuilt under each HBS_LMS_* environment; in-limit lists are held to the build-independent reference model (lifecycle, keygen, aux profiles), out-of-limit lists (one level too many, one height step above the largest configured, one w step below the smallest configured, at each level) must be refused; non-trivial = a fault or limit probe fired; distinct = (build, shape, op kinds) hash" },
         _ => return None,
     })
 }
@@ -61,7 +61,7 @@ pub fn spec(prop: &str, quick: bool) -> Option<CheckSpec> {
 /// event-log hashes compared.
 pub fn determinism(seed: u64, n: u64) -> i32 {
     let ctx = GenCtx { verif_seed: seed, quick: true };
-    let profiles = ["lifecycle", "lifecycle-full", "callback", "wire", "aux", "keygen", "purity", "handover", "radix-arith", "storage", "aux-enum", "wire-total", "radix-e2e"];
+    let profiles = ["corners", "lifecycle", "lifecycle-full", "callback", "wire", "aux", "keygen", "purity", "handover", "radix-arith", "storage", "aux-enum", "wire-total", "radix-e2e"];
     let mut bad = 0;
     let mut total = 0;
     for prof in profiles {
